@@ -157,6 +157,35 @@ func evalFiles(format string, files map[string][]byte, slice uint64, decls []dec
 			msg = fmt.Sprintf("Verify counts %d usable recovery blocks but only %d blocks of the declared slice size are stored", vr2.ShardCounts.UsableParityShardCount, len(exps))
 		}
 	}
+	if msg == "" && c.Format == "par2" && verr2 == nil && !vr2.ShardCounts.RepairNeeded() {
+		// "no repair needed" is truthful only if every non-empty file of the recovery set (the IDs the main packet of the
+		// index file's set lists) that carries one of the set's real names is there with the declared length and MD5
+		inSet := map[[16]byte]bool{}
+		if ps := par2ref.ScanTolerant(files["set.par2"]); len(ps) > 0 {
+			for _, p := range ps {
+				if p.Type == par2ref.TypeMain && p.SetID == ps[0].SetID {
+					if m, err := par2ref.ParseMain(p.Body); err == nil {
+						for i, id := range m.IDs {
+							if uint32(i) < m.NRecovery {
+								inSet[id] = true
+							}
+						}
+					}
+					break
+				}
+			}
+		}
+		for _, d := range decls {
+			if _, known := data[d.Name]; !known || d.Length == 0 || !inSet[par2ref.FileID(d.MD516k, d.Length, []byte(d.Name))] {
+				continue
+			}
+			e, ok := before[d.Name]
+			if !ok || uint64(len(e.Data)) != d.Length || md5.Sum(e.Data) != d.MD5 {
+				msg = fmt.Sprintf("Verify reports that no repair is needed, but %q is missing or does not have the length and MD5 the archive declares for it", d.Name)
+				break
+			}
+		}
+	}
 	if msg == "" && c.Conformant {
 		after, _ := fsx.Take(dir)
 		for n, d := range data {
@@ -325,6 +354,7 @@ func par2Singles() []Mut {
 	for _, m := range []string{"dup", "unsorted", "extra", "missing"} {
 		ms = append(ms, Mut{"ids:" + m, 0})
 	}
+	ms = append(ms, Mut{"recvinindex", 0}, Mut{"recvonlyinindex", 0})
 	for i := 0; i < 2; i++ {
 		for _, v := range u64grid([]uint64{20, 9}[i]) {
 			ms = append(ms, Mut{fmt.Sprintf("f%d.length", i), v})
@@ -503,7 +533,7 @@ func TestCheck(t *testing.T) {
 	// exhaustive pairs: every structural mutation (packet removal/duplication, ID-list shape, recovery block size) with every single mutation
 	var structural []Mut
 	for _, m := range s2 {
-		if strings.HasPrefix(m.Field, "drop:") || strings.HasPrefix(m.Field, "dup:") || strings.HasPrefix(m.Field, "ids:") || (strings.HasSuffix(m.Field, ".len") && m.Val < 16) {
+		if strings.HasPrefix(m.Field, "drop:") || strings.HasPrefix(m.Field, "dup:") || strings.HasPrefix(m.Field, "ids:") || (strings.HasSuffix(m.Field, ".len") && m.Val < 16) || m.Field == "recvinindex" || m.Field == "recvonlyinindex" {
 			structural = append(structural, m)
 		}
 	}
@@ -563,6 +593,23 @@ func TestCheck(t *testing.T) {
 							if cfg.Mine(idx) {
 								do(Case{Format: "par1", Muts: []Mut{{fmt.Sprintf("h%d.%s", v, fa.n), x}, {fmt.Sprintf("h%d.%s", v, fb.n), y}}, DataPresent: idx % 3})
 							}
+						}
+					}
+				}
+			}
+		}
+	}
+	// pairs of a PAR1 offset and its size whose 64-bit sum wraps around to a position inside (or just behind) the file
+	{
+		files1, _ := BuildPAR1(nil)
+		for v, name := range []string{"set.par", "set.p01", "set.p02"} {
+			L := uint64(len(files1[name]))
+			for _, pr := range [][2]string{{"dataoff", "datasize"}, {"listoff", "listsize"}} {
+				for _, k := range []uint64{1, 8, 16, 96, 4096} {
+					for _, end := range []uint64{L, L - 1, L + 1, 0x60, L - 10} {
+						idx++
+						if cfg.Mine(idx) {
+							do(Case{Format: "par1", Muts: []Mut{{fmt.Sprintf("h%d.%s", v, pr[0]), -k}, {fmt.Sprintf("h%d.%s", v, pr[1]), end + k}}, DataPresent: int(idx) % 3})
 						}
 					}
 				}
